@@ -121,15 +121,15 @@ func Start(mode Mode, logPath string, env []string, bin string, args ...string) 
 }
 
 var (
-	reLine      = regexp.MustCompile(`^(\d+)\s+(.*)$`)
-	reResumed   = regexp.MustCompile(`^<\.\.\. (\w+) resumed>(.*)$`)
-	reRenameat  = regexp.MustCompile(`^renameat2?\(AT_FDCWD, "((?:[^"\\]|\\.)*)", AT_FDCWD, "((?:[^"\\]|\\.)*)"(?:, [^)]*)?\)\s+= (-?\d+)(.*)$`)
-	reRename    = regexp.MustCompile(`^rename\("((?:[^"\\]|\\.)*)", "((?:[^"\\]|\\.)*)"\)\s+= (-?\d+)(.*)$`)
-	reUnlinkat  = regexp.MustCompile(`^unlinkat\(AT_FDCWD, "((?:[^"\\]|\\.)*)", (\w+)\)\s+= (-?\d+)(.*)$`)
-	reUnlink    = regexp.MustCompile(`^(?:unlink|rmdir)\("((?:[^"\\]|\\.)*)"\)\s+= (-?\d+)(.*)$`)
-	reOpenat    = regexp.MustCompile(`^openat\(AT_FDCWD, "((?:[^"\\]|\\.)*)", ([A-Z_|]+)(?:, \d+)?\)\s+= (-?\d+)(.*)$`)
-	reStopped   = regexp.MustCompile(`^--- stopped by SIGSTOP ---$`)
-	reKilled    = regexp.MustCompile(`^\+\+\+ killed by SIGKILL \+\+\+$`)
+	reLine     = regexp.MustCompile(`^(\d+)\s+(.*)$`)
+	reResumed  = regexp.MustCompile(`^<\.\.\. (\w+) resumed>(.*)$`)
+	reRenameat = regexp.MustCompile(`^renameat2?\(AT_FDCWD, "((?:[^"\\]|\\.)*)", AT_FDCWD, "((?:[^"\\]|\\.)*)"(?:, [^)]*)?\)\s+= (-?\d+)(.*)$`)
+	reRename   = regexp.MustCompile(`^rename\("((?:[^"\\]|\\.)*)", "((?:[^"\\]|\\.)*)"\)\s+= (-?\d+)(.*)$`)
+	reUnlinkat = regexp.MustCompile(`^unlinkat\(AT_FDCWD, "((?:[^"\\]|\\.)*)", (\w+)\)\s+= (-?\d+)(.*)$`)
+	reUnlink   = regexp.MustCompile(`^(?:unlink|rmdir)\("((?:[^"\\]|\\.)*)"\)\s+= (-?\d+)(.*)$`)
+	reOpenat   = regexp.MustCompile(`^openat\(AT_FDCWD, "((?:[^"\\]|\\.)*)", ([A-Z_|]+)(?:, \d+)?\)\s+= (-?\d+)(.*)$`)
+	reStopped  = regexp.MustCompile(`^--- stopped by SIGSTOP ---$`)
+	reKilled   = regexp.MustCompile(`^\+\+\+ killed by SIGKILL \+\+\+$`)
 )
 
 // Event is a parsed log line relevant to the harness.
